@@ -71,10 +71,11 @@ def _component(draw, name, cid, p, backend, column=True, plain=False):
         "report_duplicates": (draw(st.sampled_from(["exclude_first", "exclude_last"]))
                               if (not plain and backend == "pandas" and flag()) else "all"),
         "coerce": flag(0.25),
-        "title": "T-" + name if (not plain and flag()) else None,
-        "description": "D-" + name if (not plain and flag()) else None,
-        "default": (not plain) and flag(),
-        "metadata": {"k": name, "n": [1, 2]} if (not plain and flag()) else None,
+        # (set-but-falsy values - "", 0, {} - are values like any other: "not set" is None / absent, not falsy)
+        "title": draw(st.sampled_from(["T-" + name] * 3 + [""])) if (not plain and flag()) else None,
+        "description": draw(st.sampled_from(["D-" + name] * 3 + [""])) if (not plain and flag()) else None,
+        "default": draw(st.sampled_from([True, True, "falsy"])) if (not plain and flag()) else False,
+        "metadata": draw(st.sampled_from([{"k": name, "n": [1, 2]}] * 3 + [{}])) if (not plain and flag()) else None,
         "drop_invalid_rows": (not plain) and flag(),
         "raws": draw(st.lists(st.integers(0, 20), min_size=4, max_size=4, unique=True)),
         "null_at": draw(st.one_of(st.none(), st.integers(0, 3))),
